@@ -228,8 +228,10 @@ class AddressRange(collections.namedtuple(
                 return address
 
             elif not address.sheet:
-                start = AddressCell(address.start.coordinate, sheet=sheet)
-                end = AddressCell(address.end.coordinate, sheet=sheet)
+                # the corners of an unbounded range ('A', '1') are not
+                # coordinates on their own, so re-sheet the corner objects
+                start = AddressCell(address.start, sheet=sheet)
+                end = AddressCell(address.end, sheet=sheet)
 
             else:
                 raise ValueError(f"Mismatched sheets '{address}' and '{sheet}'")
